@@ -53,6 +53,23 @@ impl Property for C19 {
             let extra = if matches!(fmt, Fmt::Msg | Fmt::End) && tape.chance(1, 2) { (0..(2 + tape.below(5))).map(|i| format!("script unused{} {{\n}}\n\n", i)).collect::<String>() } else { String::new() };
             return json!({"kind": "source", "base": "valid", "fmt": fmt.name(), "game": game, "tool_fmt": fmt.name(), "tool_game": game, "text": format!("{}{}", f.text, extra), "mutations": []});
         }
+        if tape.chance(1, 8) {
+            // pre-TH10 ECL subs whose parameters are also used through their raw registers, or locals that need scratch
+            // registers next to explicit ones: several independent warnings / notes per sub
+            let game = *tape.pick(&["th07", "th08", "th09", "th095"]);
+            let base = match game { "th07" => 10029, "th095" => 10036, _ => 10053 };
+            let nsubs = 1 + tape.below(3);
+            let mut text = String::from("script timeline0 {\n}\n\n");
+            for i in 0..nsubs {
+                let ni = 1 + tape.below(4); let nf = tape.below(5);
+                let params: Vec<String> = (0..ni).map(|k| format!("int a{}", k)).chain((0..nf).map(|k| format!("float f{}", k))).collect();
+                let mut body = String::new();
+                for k in 0..ni { if tape.chance(2, 3) { body.push_str(&format!("    $REG[{}] = {};\n", base + k as i32, k)); } }
+                for k in 0..nf { if tape.chance(2, 3) { body.push_str(&format!("    %REG[{}] = {}.0;\n", base + 4 + k as i32, k)); } }
+                text.push_str(&format!("void Sub{}({}) {{\n{}}}\n\n", i, params.join(", "), body));
+            }
+            return json!({"kind": "source", "base": "valid", "fmt": "ecl", "game": game, "tool_fmt": "ecl", "tool_game": game, "text": text, "mutations": []});
+        }
         C04.generate(tape, tier, known)
     }
 
